@@ -1182,10 +1182,14 @@ nni_ctx_rele(nni_ctx *ctx)
 	// tries to avoid ID reuse.
 	nni_id_remove(&ctx_ids, ctx->c_id);
 	nni_list_remove(&sock->s_ctxs, ctx);
+
+	// Tear the context down before the socket learns that it is gone
+	// (as sock_shutdown does): the protocol's ctx_fini uses the socket,
+	// and a closing socket is destroyed once its context list is empty.
+	nni_ctx_destroy(ctx);
+
 	nni_cv_wake(&sock->s_close_cv);
 	nni_mtx_unlock(&sock_lk);
-
-	nni_ctx_destroy(ctx);
 }
 
 int
